@@ -109,7 +109,8 @@ class Check:
       # which theorem broke? try to name it from the error location
       self.build_log = out[-6000:]
       errs = [l for l in out.split('\n') if 'error' in l][:8]
-      self.broken_theorems.append({'theorem': f'build of {modules}', 'msg': ' | '.join(errs)[:1500]})
+      names = self._theorems_at_errors(out)
+      self.broken_theorems.append({'theorem': ', '.join(names) if names else f'build of {modules}', 'msg': ' | '.join(errs)[:1500]})
       # the driver may still exist from an earlier build; correspondence can go on if so
       if not all(os.path.exists(leanio.driver_path(h)) for h in mod.DRIVERS):
         # the model/driver itself no longer builds: cannot run the correspondence at all
@@ -135,6 +136,23 @@ class Check:
         elif not r['ok']: self.broken_theorems.append({'theorem': t, 'msg': r['msg']})
     if self.tier == 'thorough' and not self.broken_theorems and os.environ.get('VERIF_NO_LEANCHECKER') != '1':
       self.leanchecker(modules)
+
+  @staticmethod
+  def _theorems_at_errors(out):
+    """names of the theorems/definitions enclosing the error locations of a failed lake build"""
+    import re
+    names = []
+    for m in re.finditer(r'error: (\S+\.lean):(\d+):\d+', out):
+      path, line = os.path.join(leanio.LEAN_DIR, m.group(1)), int(m.group(2))
+      try: src = open(path).read().split('\n')
+      except OSError: continue
+      for i in range(min(line, len(src)) - 1, -1, -1):
+        mm = re.match(r'\s*(?:private\s+|protected\s+)?(?:theorem|lemma|def|instance|example)\s+([^\s:({\[]+)?', src[i])
+        if mm:
+          nm = f"{m.group(1)}:{mm.group(1) or 'example@' + str(i + 1)}"
+          if nm not in names: names.append(nm)
+          break
+    return names[:6]
 
   def _module_of(self, theorem, modules):
     tm = getattr(self.mod, 'THEOREM_MODULE', {})
